@@ -130,7 +130,7 @@ def ob_purity():
         muts = [n for n, f in c.fns.items() if f.kind == "static" and "mut" in n]
         src = open(os.path.join(REPO, CRATE, "src", "lib.rs"), encoding="utf-8", errors="replace").read()
         if "static mut" in src or "thread_local" in src or "Cell<" in src or "Mutex" in src or "Atomic" in src:
-            raise Violation("gm-sm3 contains mutable global state (static mut / cell / atomic): purity not structural")
+            raise Inconclusive("structure not recognised (no verdict): " + "gm-sm3 contains mutable global state (static mut / cell / atomic): purity not structural")
         # every call made while hashing is to a known-pure item
         dom = BV(); ctx = Ctx(); ex = Ex(c, dom, ctx)
         cell = Cell(Agg([Sc(1, "u8")] * 70, name="array"), "msg")
